@@ -27,14 +27,20 @@ def _serve():
     devnull = io.StringIO()
     sys.stdout = devnull
     sys.setrecursionlimit(3000)
+    try:
+        import resource
+        lim = 4 << 30            # a run that does not terminate must not eat the machine's memory
+        resource.setrlimit(resource.RLIMIT_AS, (lim, lim))
+    except (ImportError, ValueError, OSError):
+        pass
     from symex import loader
     loader.install_pristine()
     from symex.core import ConcreteCtx, PathAbort, plain
 
     def alarm(signum, frame):
-        signal.setitimer(signal.ITIMER_REAL, 0.2)
+        signal.setitimer(signal.ITIMER_PROF, 0.2)
         raise OracleTimeout()
-    signal.signal(signal.SIGALRM, alarm)
+    signal.signal(signal.SIGPROF, alarm)      # CPU time of this process, not wall clock
     for line in sys.stdin:
         line = line.strip()
         if not line:
@@ -44,13 +50,13 @@ def _serve():
         try:
             mod = importlib.import_module("harness." + req["harness"])
             ctx = ConcreteCtx(req["inputs"])
-            signal.setitimer(signal.ITIMER_REAL, req.get("timeout", 10))
+            signal.setitimer(signal.ITIMER_PROF, req.get("timeout", 10))
             try:
                 try:
                     r = mod.run(ctx, req["cell"])
                     resp["obs"] = plain(r)
                 finally:
-                    signal.setitimer(signal.ITIMER_REAL, 0)
+                    signal.setitimer(signal.ITIMER_PROF, 0)
             except PathAbort:
                 resp["status"] = "abort"
             except OracleTimeout:
@@ -100,6 +106,17 @@ class Oracle:
             self.p = None
 
     def call(self, harness, cell, inputs, timeout=10):
+        r = self._call(harness, cell, inputs, timeout)
+        if r["status"] == "timeout":
+            # "does not return" is only believed when a second, much longer run does not return either
+            # (a loaded machine must not turn a slow run into a non-termination verdict)
+            r2 = self._call(harness, cell, inputs, max(60, 8 * timeout))
+            if r2["status"] != "timeout":
+                r2["slow"] = True
+            return r2
+        return r
+
+    def _call(self, harness, cell, inputs, timeout=10):
         if self.p is None or self.p.poll() is not None:
             self._start()
         t0 = time.time()
@@ -111,7 +128,7 @@ class Oracle:
         except BrokenPipeError:
             self.close()
             return {"status": "crash", "failed": [], "classes": [], "obs": None}
-        r, _, _ = select.select([self.p.stdout], [], [], timeout + 5)
+        r, _, _ = select.select([self.p.stdout], [], [], 6 * timeout + 30)     # wall clock backstop
         if not r:
             self.close()
             self.seconds += time.time() - t0
